@@ -154,6 +154,8 @@ def run_cases(args):
             before = None
             if has_file:
                 utxt = to_toml(u, rnd, comments, (), styles) + "\n"
+                if not u["v"]:
+                    utxt = ["", "\n", "# only a comment\n", "  \n\n"][(n + seed) % 4]      # a user file that sets nothing: zero bytes, blank, comment-only
                 if given:
                     utxt = given["user"]
                 rec["_texts"]["user"] = utxt
